@@ -341,13 +341,93 @@ fn document_level(tier: &str, seed: u64, s: &mut Search) {
             let Ok(Some(pp)) = crate::pan::catch(|| crate::rend::render(&tp, cw, ch, tiny_skia::Transform::identity())) else { continue };
             let (ok, why) = crate::rend::similar(&pp, &pf, 2);
             if !ok {
-                s.finding("oracle:document:identity-chain-not-noop", &format!("a chain of identity primitives changed the image inside the region: {}", why), &filtered);
+                // A thin stroke (under one device pixel: tiny-skia's hairline rasteriser) moves by one pixel across
+                // its direction when the layer it is drawn into has other bounds; along a nearly horizontal or
+                // vertical line that is many pixels.  Differences that are all of that kind, in a document that has
+                // such a stroke, are the rasteriser's and not a primitive's: a signature of their own.
+                let thin = filtered.contains(r#"stroke-width="0."#) && scale == 1;
+                if thin && hairline_shift_only(&pp, &pf) {
+                    s.finding("dep:hairline-moves-with-layer-bounds", &format!("identity chain over a stroke thinner than a pixel: {}", why), &filtered);
+                } else {
+                    s.finding("oracle:document:identity-chain-not-noop", &format!("a chain of identity primitives changed the image inside the region: {}", why), &filtered);
+                }
             }
         }
     }
 }
 
+/// every pixel that differs by more than 80 has a close value one row (column) away within 12 pixels along the
+/// row (column) in the other image, and flat areas agree
+fn hairline_shift_only(a: &tiny_skia::Pixmap, b: &tiny_skia::Pixmap) -> bool {
+    let (w, h) = (a.width() as i32, a.height() as i32);
+    let px = |d: &[u8], x: i32, y: i32| -> [i32; 4] {
+        let i = ((y * w + x) * 4) as usize;
+        [d[i] as i32, d[i + 1] as i32, d[i + 2] as i32, d[i + 3] as i32]
+    };
+    let dist = |p: [i32; 4], q: [i32; 4]| -> i32 { (0..4).map(|k| (p[k] - q[k]).abs()).max().unwrap() };
+    let near = |img: &[u8], p: [i32; 4], x: i32, y: i32| -> bool {
+        for (rx, ry) in [(12, 1), (1, 12)] {
+            for dy in -ry..=ry {
+                for dx in -rx..=rx {
+                    let (xx, yy) = (x + dx, y + dy);
+                    if xx >= 0 && yy >= 0 && xx < w && yy < h && dist(p, px(img, xx, yy)) <= 80 {
+                        return true;
+                    }
+                }
+            }
+        }
+        false
+    };
+    let (ea, eb) = (crate::rend::edge_mask(a), crate::rend::edge_mask(b));
+    let mut flat = 0;
+    for y in 0..h {
+        for x in 0..w {
+            let (pa, pb) = (px(a.data(), x, y), px(b.data(), x, y));
+            let d = dist(pa, pb);
+            if d > 80 {
+                if !(near(b.data(), pa, x, y) && near(a.data(), pb, x, y)) {
+                    return false;
+                }
+            } else if d > 2 && !(ea[(y * w + x) as usize] || eb[(y * w + x) as usize]) {
+                flat += 1;
+            }
+        }
+    }
+    flat <= 4 + (w * h) as usize / 2000
+}
+
 pub fn search(tier: &str, seed: u64, s: &mut Search) {
+    // feTile copies pixels: after a primitive of either working space the whole-region tile changes nothing
+    {
+        let mut rng = Rng::new(seed ^ 0x711EC16);
+        let o = crate::corpus::opts_for(None);
+        for k in 0..(if tier == "thorough" { 120 } else { 16 }) {
+            let (r, g, b) = (rng.below(256), rng.below(256), rng.below(256));
+            let ci = if k % 2 == 0 { "linearRGB" } else { "sRGB" };
+            let first = *rng.pick(&[r#"<feColorMatrix type="saturate" values="1"/>"#, r#"<feOffset dx="0" dy="0"/>"#, r#"<feComponentTransfer><feFuncR type="identity"/></feComponentTransfer>"#]);
+            let doc = |tile: &str| format!(r##"<svg xmlns="http://www.w3.org/2000/svg" width="60" height="60"><filter id="f" filterUnits="userSpaceOnUse" x="5" y="5" width="50" height="50" color-interpolation-filters="{ci}">{first}{tile}</filter><rect x="10" y="10" width="40" height="40" fill="rgb({r},{g},{b})" filter="url(#f)"/></svg>"##);
+            let (with, without) = (doc("<feTile/>"), doc(""));
+            let render = |svg: &str| -> Option<tiny_skia::Pixmap> {
+                let t = crate::pan::catch(|| usvg::Tree::from_str(svg, &o)).ok()?.ok()?;
+                crate::pan::catch(|| crate::rend::render(&t, 60, 60, tiny_skia::Transform::identity())).ok()?
+            };
+            let (Some(a), Some(bm)) = (render(&with), render(&without)) else { continue };
+            s.case("tile-keeps-colour-space", &with, true);
+            // compared well inside the rect (bicubic sampling may touch the edges)
+            let mut worst = 0i32;
+            for y in 14..46u32 {
+                for x in 14..46u32 {
+                    let i = ((y * 60 + x) * 4) as usize;
+                    for c in 0..4 {
+                        worst = worst.max((a.data()[i + c] as i32 - bm.data()[i + c] as i32).abs());
+                    }
+                }
+            }
+            if worst > 2 {
+                s.finding(&format!("oracle:document:tile-keeps-colour-space:{}", ci), &format!("a whole-region feTile after {} changes the image by {} levels", first, worst), &with);
+            }
+        }
+    }
     // feDropShadow with no blur: the shadow has exactly the flood colour (times flood-opacity), in either working space
     {
         let mut rng = Rng::new(seed ^ 0x5EA7C16D);
